@@ -51,6 +51,29 @@ def gen(rng, n_cases, algos=None, gens=(2, 5)):
                "shift": float(rng.choice([-1.0, -0.3, 0.0, 0.0, 0.5, 3.0])),
                "pm": bool(rng.randint(5) == 0), "n_gen": int(rng.randint(gens[0], gens[1] + 1)),
                "prior": bool(rng.randint(3) == 0), "seed": int(rng.randint(1, 2**31 - 1))}
+        # round 5: one objective is +inf / -inf / NaN on part of the box (NSDE / GDE3 with the NumPy crowding distance; the
+        # model is not consulted on such records - oracles only)
+        cfg["special"] = None
+        if algo in ("nsde", "gde3") and rng.randint(5) == 0:
+            cfg["special"] = ["posinf", "neginf", "nan", "mixinf"][rng.randint(4)]
+            cfg["metric"] = "cd"
+            cfg["fscale"] = None
+        # individuals with a feasibility tolerance (pymoo's epsilon-constraint handling): config["cv_eps"] > 0
+        # (not for DE: its replacement uses the tolerant `feasible` flag while FitnessSurvival orders by the raw CV, so "best" is
+        # ambiguous there - noted in DESIGN.md, outside the properties as stated)
+        cfg["cv_eps"] = float(rng.choice([1e-3, 0.05, 0.5])) if (n_ieq + n_eq) and algo != "de" and rng.randint(6) == 0 else 0.0
+        # warm start from a population evaluated beforehand (`sampling=<Population>`): on the same box, or on a wider one than
+        # the problem now declares; optionally a second algorithm started from the very same individuals and advanced in turn
+        cfg["warm"] = None
+        cfg["twin"] = False
+        if algo in ("de", "nsde", "gde3", "nsder") and rng.randint(5) == 0:
+            cfg["warm"] = ["same", "wide"][rng.randint(2)]
+            cfg["twin"] = bool(algo == "de" and rng.randint(3) != 0)
+        # a degenerate generation: every user-made infill is a clone of its target (nothing can be replaced, every pair ties)
+        cfg["clones"] = bool(cfg["tell_only"] and rng.randint(3) == 0)
+        if cfg["twin"]:
+            cfg["tell_only"] = int(min(cfg["n_gen"], 2 + rng.randint(0, 2)))
+            cfg["clones"] = True
         yield cfg
 
 
@@ -65,13 +88,16 @@ def case_from_record(rec):
     return c
 
 
-def make_problem(c):
+def make_problem(c, narrow=False):
     from problems import GenProblem
-    return GenProblem(c["n_var"], c["n_obj"], c["n_ieq"], c.get("n_eq", 0), xl=np.array(c["xl"], dtype=float), xu=np.array(c["xu"], dtype=float),
-                      seed=c["pseed"], grid=c["grid"], shift=c["shift"], fscale=c.get("fscale"))
+    xl, xu = np.array(c["xl"], dtype=float), np.array(c["xu"], dtype=float)
+    declared = (xl + 0.25 * (xu - xl), xu - 0.25 * (xu - xl)) if narrow else None
+    return GenProblem(c["n_var"], c["n_obj"], c["n_ieq"], c.get("n_eq", 0), xl=xl, xu=xu,
+                      seed=c["pseed"], grid=c["grid"], shift=c["shift"], fscale=c.get("fscale"), special=c.get("special"),
+                      declared=declared)
 
 
-def make_algorithm(c, prob):
+def make_algorithm(c, prob, sampling=None):
     from pymoo.operators.mutation.pm import PM
     from pymoode.survival import RankAndCrowding, ConstrRankAndCrowding
     from pymoode.algorithms import DE, NSDE, GDE3, GDE3MNN, GDE32NN, GDE3P, NSDER
@@ -80,6 +106,8 @@ def make_algorithm(c, prob):
     kw = dict(pop_size=c["pop_size"], variant=vs, CR=c["CR"], F=F, gamma=c["gamma"])
     if c["pm"]:
         kw["genetic_mutation"] = PM(prob=0.3, eta=15)
+    if sampling is not None:
+        kw["sampling"] = sampling
     a = c["algo"]
     if not c.get("adv_init", True) and a in ("de", "nsde", "gde3", "nsder"):
         kw["advance_after_initial_infill"] = False
@@ -161,16 +189,28 @@ def run(case, replay=None):
     c = {k: v for k, v in case.items() if k != "only_g"}
     only_g = case.get("only_g")
     recs = []
-    prob = make_problem(c)
+    prob = make_problem(c, narrow=(c.get("warm") == "wide"))
     book = IdBook()
     saved = (pcs.split_by_feasibility, rnc.split_by_feasibility, rnc.randomized_argsort)
     patched_objs = []
     err = None
+    import pymoo.core.individual as pci
+    saved_cfg = pci.Individual.__dict__.get("default_config")
+    algo2 = None
     try:
+        if c.get("cv_eps"):
+            base_cfg, eps_ = pci.default_config, float(c["cv_eps"])
+
+            def _cfg():
+                d = base_cfg()
+                d["cv_eps"] = eps_
+                return d
+            pci.Individual.default_config = staticmethod(_cfg)
         if c["prior"]:
             # preceding workload in the same process: another algorithm built from the same shared
             # defaults, on another problem, advanced a little (no deepcopy in between)
-            c2 = dict(c, n_ieq=0 if c["n_ieq"] else 1, n_eq=0 if c.get("n_eq") else 1, tell_only=0, pseed=c["pseed"] + 7, seed=c["seed"] + 1, prior=False)
+            c2 = dict(c, n_ieq=0 if c["n_ieq"] else 1, n_eq=0 if c.get("n_eq") else 1, tell_only=0, pseed=c["pseed"] + 7, seed=c["seed"] + 1, prior=False,
+                      special=None, warm=None, twin=False)
             p2 = make_problem(c2)
             import contextlib, io
             with contextlib.redirect_stdout(io.StringIO()):
@@ -179,12 +219,26 @@ def run(case, replay=None):
             while a2.has_next():
                 a2.next()
         import contextlib, io
+        wpop = None
+        if c.get("warm"):
+            from pymoo.core.evaluator import Evaluator
+            from pymoo.core.population import Population
+            rs_ = np.random.RandomState(c["seed"] % 99991)
+            xlw, xuw = np.array(c["xl"], dtype=float), np.array(c["xu"], dtype=float)
+            if c["warm"] == "same" and prob.xl is not None:
+                xlw, xuw = np.array(prob.xl, dtype=float), np.array(prob.xu, dtype=float)
+            wpop = Population.new("X", xlw + rs_.random_sample((c["pop_size"], c["n_var"])) * (xuw - xlw))
+            Evaluator().eval(make_problem(c), wpop)          # the same functions (on the wide box they were built from)
         with contextlib.redirect_stdout(io.StringIO()):
-            algo = make_algorithm(c, prob)
+            algo = make_algorithm(c, prob, sampling=wpop)
+            if c.get("twin") and wpop is not None:
+                algo2 = make_algorithm(c, prob, sampling=wpop)
         if c.get("n_evals_extra") and c["algo"] not in ("ga", "ea-dex") and c.get("evalmode") != "manual":
             term = ("n_evals", c["pop_size"] * (c["n_gen"] - 1) + c["n_evals_extra"])
         else:
             term = ("n_gen", c["n_gen"])
+        if algo2 is not None:
+            algo2.setup(prob, termination=("n_gen", c["n_gen"] + 4), seed=c["seed"] % 100003 + 17, verbose=False)
         algo.setup(prob, termination=term, seed=c["seed"], verbose=False)
         surv = algo.survival
         orc = comp_surv.Oracles()
@@ -220,6 +274,8 @@ def run(case, replay=None):
 
         g = 0
         while algo.has_next() and g <= c["n_gen"] + 2:      # (cap: a run that does not stop is the termination's business)
+            if algo2 is not None and algo2.has_next():
+                algo2.next()        # the twin started from the same individuals takes its turn (it re-ranks the shared members)
             pop_before = algo.pop
             before = snapshot(pop_before, book) if pop_before is not None and len(pop_before) else None
             n_eval0 = algo.evaluator.n_eval
@@ -236,6 +292,8 @@ def run(case, replay=None):
                 xl_, xu_ = np.array(c["xl"], dtype=float), np.array(c["xu"], dtype=float)
                 Xn = np.clip(Xp[rs.permutation(len(Xp))] + rs.uniform(-0.2, 0.2, size=Xp.shape) * (xu_ - xl_), xl_, xu_)
                 Xn[::3] = Xp[::3]          # some trials equal to their targets (exact ties)
+                if c.get("clones"):
+                    Xn = Xp.copy()
                 infills = Population.new("X", Xn)
             else:
                 infills = algo.ask()
@@ -272,8 +330,18 @@ def run(case, replay=None):
                 rec.tags.add("manual-evaluation")
             if c.get("fscale"):
                 rec.tags.add("badly-scaled-objectives")
+            rec.cfg["warm_init"] = bool(is_init and wpop is not None)
+            for key_, tag_ in (("special", "non-finite-objective:"), ("warm", "warm-start:")):
+                if c.get(key_):
+                    rec.tags.add(tag_ + str(c[key_]))
+            if c.get("cv_eps"):
+                rec.tags.add("cv_eps>0")
+            if algo2 is not None:
+                rec.tags.add("twin-on-shared-individuals")
             if tell_only:
                 rec.tags.add("tell-without-ask")
+                if c.get("clones"):
+                    rec.tags.add("all-infills-clone-their-targets")
             if prob.n_eq_constr and not prob.n_ieq_constr:
                 rec.tags.add("equality-only")
             rec.cfg["constr"] = bool(prob.has_constraints())
@@ -317,6 +385,8 @@ def run(case, replay=None):
         import traceback
         err = "%s: %s | %s" % (type(e).__name__, e, traceback.format_exc()[-600:])
     finally:
+        if saved_cfg is not None:
+            pci.Individual.default_config = saved_cfg
         pcs.split_by_feasibility, rnc.split_by_feasibility, rnc.randomized_argsort = saved
         for obj, name, val in patched_objs:
             if val is None:
@@ -339,6 +409,8 @@ def _indm(s):
 
 def encode(rec):
     c = rec.cfg
+    if c.get("special"):
+        raise ValueError("skipped")     # non-finite objective values: NumPy's crowding of such fronts is NaN-ridden and not modelled
     pop, off = rec.inp["pop"], rec.inp["off"]
     algo = "gde3" if c["algo"].startswith("gde3") else c["algo"]
     if c.get("init"):
@@ -498,7 +570,9 @@ def oracle_C07(rec):
     n_off_exp = c["pop_size"] if is_de_family or c["n_off"] is None else c["n_off"]
     if rec.out["n_asked"] != n_off_exp:
         bad.append("%d offspring proposed, expected %d" % (rec.out["n_asked"], n_off_exp))
-    if rec.cfg.get("manual_eval"):
+    if rec.cfg.get("warm_init"):
+        pass        # the first population was evaluated before the run: nothing to evaluate, nothing proposed by the operators
+    elif rec.cfg.get("manual_eval"):
         if rec.out["n_eval_delta"] != 0 or rec.out["n_eval_tell"] != 0:
             bad.append("the offspring were evaluated by the user, yet the algorithm's evaluator counted %d (+%d inside tell) evaluations" % (
                 rec.out["n_eval_delta"], rec.out["n_eval_tell"]))
